@@ -245,6 +245,9 @@ class Filtration(SimplicialComplex):
         :param id: (optional) name for the simplex
         :param attr: (optional) dict of attributes
         :returns: the name of the new simplex'''
+        for f in fs:
+            if super().containsSimplex(f) and not self.containsSimplex(f):
+                raise KeyError('Simplex {f} is not in the filtration at index {ind}'.format(f=f, ind=self.getIndex()))
         nid = super().addSimplex(fs, id, attr)
         ind = self.getIndex()
         self._appears[nid] = ind
